@@ -137,6 +137,17 @@ class Model:
             s._reassigned[key] = n > 1
         return s._reassigned[key]
 
+    def attr_stored(s, name):
+        """is `<anything>.name` ever the target of an assignment in the package?"""
+        if not hasattr(s, '_stored_attrs'):
+            st = set()
+            for d in s.mods.values():
+                for x in ast.walk(d['tree']):
+                    if isinstance(x, ast.Attribute) and isinstance(x.ctx, ast.Store):
+                        st.add(x.attr)
+            s._stored_attrs = st
+        return name in s._stored_attrs
+
     def find_class(s, name):
         for m, d in s.mods.items():
             if name in d['classes']:
@@ -334,6 +345,8 @@ class Sym:
                     for st in lk[1].body:
                         if isinstance(st, ast.Assign) and any(isinstance(t, ast.Name) and t.id == n.attr for t in st.targets) and isinstance(st.value, ast.Constant):
                             return ('c', st.value.value)
+                        if isinstance(st, ast.Assign) and any(isinstance(t, ast.Name) and t.id == n.attr for t in st.targets) and _literal_table(st.value):
+                            return s.term(st.value, {}, base[1], None)
             if base == ('self',) and s.known is not None and cls is not None and getattr(s, '_prop_depth', 0) < 3:
                 # deep mode: a read of a property whose getter is a single `return <expr>` is that expression
                 dm, dc = getattr(s, '_dyn', (mod, cls))
@@ -346,8 +359,26 @@ class Sym:
                             return s.term(body[0].value, {r[2].args.args[0].arg: ('self',)}, r[0], r[1])
                         finally:
                             s._prop_depth -= 1
+            if base == ('self',) and cls is not None:
+                # a class-level table of literals read through self (never assigned on instances)
+                dm, dc = getattr(s, '_dyn', (mod, cls))
+                for m_, c_ in (s.model.mro(dm, dc) if dc is not None else []):
+                    hit_ = [st for st in c_.body if isinstance(st, ast.Assign) and any(isinstance(t, ast.Name) and t.id == n.attr for t in st.targets)]
+                    if hit_:
+                        if len(hit_) == 1 and _literal_table(hit_[0].value) and not s.model.attr_stored(n.attr):
+                            return s.term(hit_[0].value, {}, m_, None)
+                        break
             return ('attr', base, n.attr)
         if isinstance(n, ast.BinOp):
+            if isinstance(n.op, ast.Mod) and isinstance(n.left, ast.Constant) and isinstance(n.left.value, str):
+                # printf-style formatting with simple directives is the str.format call with the same fields
+                conv = _percent_to_format(n.left.value)
+                if conv is not None:
+                    tmpl, nfields = conv
+                    rt = T(n.right)
+                    args = rt[1] if rt[0] == 'tuple' else (rt,)
+                    if len(args) == nfields and not any(a_[0] == 'star' for a_ in args):
+                        return ('call', ('attr', ('c', tmpl), 'format'), tuple(args), ()) if nfields else ('c', tmpl)
             return ('bin', BINOPS.get(type(n.op), '?'), T(n.left), T(n.right))
         if isinstance(n, ast.UnaryOp):
             if isinstance(n.op, ast.Not):
@@ -401,6 +432,20 @@ class Sym:
                     kws.extend((kk[1], vv) for kk, vv in kv[1])            # f(**{"a": x}) == f(a=x)
                 else:
                     kws.append((k.arg if k.arg is not None else '**', kv))
+            if f[0] == 'call' and term_name(f[1]).split('.')[-1] == 'partial' and f[1][0] in ('ext', 'g', 'b') and f[2] and not any(a_[0] == 'star' for a_ in f[2]) and not any(k_ == '**' for k_, _ in f[3]):
+                # functools.partial(g, *a, **k)(*b, **k2) is g(*a, *b, **{**k, **k2})
+                merged = dict(f[3])
+                merged.update(dict(kws))
+                f, args, kws = f[2][0], list(f[2][1:]) + args, list(merged.items())
+            if f[0] == 'b' and f[1] in ('tuple', 'list') and len(n.args) == 1 and not n.keywords and isinstance(n.args[0], ast.GeneratorExp):
+                n.args[0]._consumed = True
+                lit = s._unroll_comprehension(n.args[0], env, mod, cls)
+                if lit is not None:
+                    return (f[1], lit[1])                           # tuple(<f(x) for x in literal>) is the literal tuple
+            if f[0] == 'b' and f[1] in ('tuple', 'list') and len(args) == 1 and not kws and args[0][0] in ('tuple', 'list') and not any(x[0] == 'star' for x in args[0][1]):
+                return (f[1], args[0][1])
+            if f == ('b', 'format') and len(args) == 2 and not kws and args[1][0] == 'c' and isinstance(args[1][1], str):
+                return ('call', ('attr', ('c', '{:%s}' % args[1][1]), 'format'), (args[0],), ())      # format(x, ".3f") == "{:.3f}".format(x)
             if f == ('b', 'getattr') and len(args) == 2 and not kws and args[1][0] == 'c' and isinstance(args[1][1], str) and args[1][1].isidentifier():
                 return ('attr', args[0], args[1][1])                # getattr(x, "name") == x.name
             if f[0] == 'lambda' and not kws and len(args) == len(f[1]) and not any(a_[0] == 'star' for a_ in args):
@@ -412,7 +457,12 @@ class Sym:
                 return ('call', f, tuple(args), tuple(kws), (n.lineno, n.col_offset))
             return ('call', f, tuple(args), tuple(kws))
         if isinstance(n, ast.Subscript):
-            return ('sub', T(n.value), T(n.slice))
+            bv, iv = T(n.value), T(n.slice)
+            if bv[0] == 'dict' and iv[0] == 'c':
+                hit = [vv for kk, vv in bv[1] if kk == iv]
+                if len(hit) == 1:
+                    return hit[0]                # {"k": v}["k"] is v
+            return ('sub', bv, iv)
         if isinstance(n, ast.Slice):
             return ('slice', T(n.lower), T(n.upper), T(n.step))
         if isinstance(n, ast.Tuple):
@@ -433,8 +483,40 @@ class Sym:
                     c, a, b = ('cmp', {'is not': 'is', '!=': '==', 'not in': 'in'}[c[1]], c[2], c[3]), b, a
                 else:
                     break
+            # a condition over constants is decided here
+            if c == ('c', True):
+                return a
+            if c in (('c', False), ('c', None)):
+                return b
+            if c[0] == 'cmp' and c[2][0] == 'c' and c[3][0] == 'c' and c[1] in ('is', '=='):
+                x_, y_ = c[2][1], c[3][1]
+                same = (x_ is y_) or (type(x_) == type(y_) and x_ == y_)
+                return a if same else b
             return ('ite', c, a, b)
         if isinstance(n, ast.JoinedStr):
+            # f"...{x:.3f}..." is "...{:.3f}...".format(x): the canonical form the rules read (positional fields, same specs)
+            tmpl = []
+            args = []
+            ok_ = True
+            for part in n.values:
+                if isinstance(part, ast.Constant) and isinstance(part.value, str):
+                    tmpl.append(part.value.replace('{', '{{').replace('}', '}}'))
+                elif isinstance(part, ast.FormattedValue):
+                    spec = ''
+                    if part.format_spec is not None:
+                        if all(isinstance(v, ast.Constant) for v in part.format_spec.values):
+                            spec = ':' + ''.join(str(v.value) for v in part.format_spec.values)
+                        else:
+                            ok_ = False
+                    conv = {-1: '', 115: '!s', 114: '!r', 97: '!a'}.get(part.conversion, '')
+                    tmpl.append('{%s%s}' % (conv, spec))
+                    args.append(T(part.value))
+                else:
+                    ok_ = False
+            if ok_:
+                if not args:
+                    return ('c', ''.join(tmpl).replace('{{', '{').replace('}}', '}'))
+                return ('call', ('attr', ('c', ''.join(tmpl)), 'format'), tuple(args), ())
             return ('str',)
         if isinstance(n, ast.Lambda):
             env2 = dict(env)
@@ -442,6 +524,11 @@ class Sym:
             for p in ps:
                 env2[p] = ('lp', p)
             return ('lambda', ps, s.term(n.body, env2, mod, cls))
+        if isinstance(n, (ast.ListComp, ast.SetComp, ast.DictComp)) or (isinstance(n, ast.GeneratorExp) and getattr(n, '_consumed', False)):
+            # a comprehension over a literal sequence (also a module-level table) without a filter is the literal it builds
+            lit = s._unroll_comprehension(n, env, mod, cls)
+            if lit is not None:
+                return lit
         if isinstance(n, (ast.GeneratorExp, ast.ListComp, ast.SetComp)):
             env2 = dict(env)
             gens = []
@@ -456,16 +543,48 @@ class Sym:
             kind = {ast.GeneratorExp: 'gen', ast.ListComp: 'listcomp', ast.SetComp: 'setcomp'}[type(n)]
             return (kind, s.term(n.elt, env2, mod, cls), tuple(gens))
         if isinstance(n, ast.DictComp):
-            return ('unk', 'dictcomp')
+            return ('unk', 'dictcomp')     # (not over a literal sequence: see _unroll_comprehension)
         if isinstance(n, ast.Starred):
             return ('star', T(n.value))
         if isinstance(n, (ast.Yield, ast.YieldFrom)):
             return ('yieldexpr', T(n.value) if n.value is not None else ('c', None))
         if isinstance(n, ast.NamedExpr):
-            return T(n.value)
+            v_ = T(n.value)
+            if isinstance(n.target, ast.Name):
+                env[n.target.id] = v_          # (x := e) binds x for what follows (env is the path's own dictionary)
+            return v_
         if isinstance(n, ast.Await):
             return T(n.value)
         return ('unk', ast.unparse(n)[:60])
+
+    def _unroll_comprehension(s, n, env, mod, cls):
+        if len(n.generators) != 1 or n.generators[0].ifs or n.generators[0].is_async:
+            return None
+        g = n.generators[0]
+        it = s.term(g.iter, env, mod, cls)
+        if it[0] not in ('tuple', 'list') or len(it[1]) > 40 or any(x[0] == 'star' for x in it[1]):
+            return None
+        out = []
+        for el in it[1]:
+            env2 = dict(env)
+            if isinstance(g.target, ast.Name):
+                env2[g.target.id] = el
+            elif isinstance(g.target, (ast.Tuple, ast.List)) and all(isinstance(x, ast.Name) for x in g.target.elts):
+                if el[0] in ('tuple', 'list') and len(el[1]) == len(g.target.elts):
+                    for x, v in zip(g.target.elts, el[1]):
+                        env2[x.id] = v
+                else:
+                    for i_, x in enumerate(g.target.elts):
+                        env2[x.id] = ('sub', el, ('c', i_))
+            else:
+                return None
+            if isinstance(n, ast.DictComp):
+                out.append((s.term(n.key, env2, mod, cls), s.term(n.value, env2, mod, cls)))
+            else:
+                out.append(s.term(n.elt, env2, mod, cls))
+        if isinstance(n, ast.DictComp):
+            return ('dict', tuple(out))
+        return ('list', tuple(out)) if isinstance(n, ast.ListComp) else ('tuple', tuple(out))
 
     # ------------------------------------------------------------------ statements
     def _tuple_arity(s, t):
@@ -661,6 +780,12 @@ class Sym:
         f = call.func
         m = s.model
         tgt = None
+        if isinstance(f, ast.Name) and f.id in leaf.env and leaf.env[f.id][0] == 'attr' and leaf.env[f.id][1] == ('self',) and leaf.env.get('self', ('self',)) == ('self',):
+            # a bound method of self held in a local / parameter (handler passed to a helper): called like self.<name>(...)
+            dm, dc = getattr(s, '_dyn', (s._mod, s._cls))
+            r = m.find_method(dm, dc, leaf.env[f.id][2]) if dc is not None else None
+            if r and not m.is_property(r[2]) and not any(isinstance(d, ast.Name) and d.id in ('staticmethod', 'classmethod') for d in r[2].decorator_list):
+                tgt = (r[0], r[1], r[2], True, '%s.%s.%s' % (r[0], r[1].name, r[2].name))
         if isinstance(f, ast.Name) and f.id not in leaf.env:
             g = m.resolve_global(s._mod, f.id)
             lk = m.lookup(g)
@@ -683,7 +808,7 @@ class Sym:
         if tgt is None or tgt[4] in (KNOWN if s.known is None else s.known):
             return None
         fn = tgt[2]
-        if any(isinstance(x, (ast.Yield, ast.YieldFrom)) for x in ast.walk(fn)) or fn.args.kwarg:
+        if any(isinstance(x, (ast.Yield, ast.YieldFrom)) for x in ast.walk(fn)):
             return None
         if any(k.arg is None for k in call.keywords):
             return None
@@ -743,6 +868,12 @@ class Sym:
             return None
         for a, d in zip(fn.args.kwonlyargs, fn.args.kw_defaults):
             env[a.arg] = kwt.get(a.arg, s.term(d, {}, mod2, cls2) if d is not None else ('unk', a.arg))
+        named = set(params) | {a.arg for a in fn.args.kwonlyargs}
+        extra_kw = [(k_, v_) for k_, v_ in kwt.items() if k_ not in named]
+        if fn.args.kwarg:
+            env[fn.args.kwarg.arg] = ('dict', tuple((('c', k_), v_) for k_, v_ in extra_kw))      # **kwargs of the helper: the keywords it was given
+        elif extra_kw:
+            return None
         inner = Leaf()
         inner.env = env
         save = (s._mod, s._cls)
@@ -901,6 +1032,22 @@ class Sym:
                     and len(v.args) == 1 and not v.keywords and v.func.value.id in leaf.env and leaf.env[v.func.value.id][0] == 'list':
                 cur = leaf.env[v.func.value.id]
                 leaf.env[v.func.value.id] = ('list', cur[1] + (s.T(v.args[0], leaf),))
+            # d.update(k=v, ...) / d.update({"k": v}) on a local dictionary: the same item stores
+            if isinstance(v, ast.Call) and isinstance(v.func, ast.Attribute) and v.func.attr == 'update' and isinstance(v.func.value, ast.Name) and v.func.value.id in leaf.env \
+                    and leaf.env[v.func.value.id][0] in ('dict', 'upd', 'call') and len(v.args) <= 1 and all(k.arg is not None for k in v.keywords):
+                items = []
+                if v.args:
+                    at = s.T(v.args[0], leaf)
+                    items = list(at[1]) if at[0] == 'dict' else None
+                if items is not None:
+                    items += [(('c', k.arg), s.T(k.value, leaf)) for k in v.keywords]
+                    cur = leaf.env[v.func.value.id]
+                    for kk, vv in items:
+                        if cur[0] == 'dict':
+                            cur = ('dict', tuple([kv for kv in cur[1] if kv[0] != kk] + [(kk, vv)]))
+                        else:
+                            cur = ('upd', cur, kk, vv)
+                    leaf.env[v.func.value.id] = cur
             return [leaf]
         if isinstance(st, ast.Assign) and s.known is not None and len(st.targets) == 1 and isinstance(st.targets[0], ast.Attribute) and isinstance(st.targets[0].value, ast.Name) \
                 and st.targets[0].value.id == 'self' and leaf.env.get('self', ('self',)) == ('self',) and s._cls is not None and s._inline_depth < 3:
@@ -960,6 +1107,17 @@ class Sym:
             return s.while_loop(st, leaf)
         if isinstance(st, ast.Try):
             return s.try_stmt(st, leaf)
+        if isinstance(st, ast.With) and len(st.items) == 1 and st.items[0].optional_vars is None and isinstance(st.items[0].context_expr, ast.Call) \
+                and term_name(s.T(st.items[0].context_expr.func, leaf)).split('.')[-1] == 'suppress' and st.items[0].context_expr.args and not st.items[0].context_expr.keywords:
+            # `with contextlib.suppress(E1, E2): BODY` is `try: BODY / except (E1, E2): pass`
+            ce = st.items[0].context_expr
+            typ = ce.args[0] if len(ce.args) == 1 else ast.Tuple(elts=list(ce.args), ctx=ast.Load())
+            handler = ast.ExceptHandler(type=typ, name=None, body=[ast.Pass()])
+            tr = ast.Try(body=st.body, handlers=[handler], orelse=[], finalbody=[])
+            for x in (handler, tr, handler.body[0], typ):
+                ast.copy_location(x, st)
+            ast.fix_missing_locations(tr)
+            return s.stmt(tr, leaf)
         if isinstance(st, ast.With):
             for it in st.items:
                 s.note_calls(it.context_expr, leaf)
@@ -1001,8 +1159,44 @@ class Sym:
             return [leaf]
         if isinstance(st, ast.ClassDef):
             return [leaf]
-        leaf.notes.append('unsupported statement %s' % type(st).__name__)
-        return [leaf]
+        if isinstance(st, ast.Match):
+            # match on constants / alternatives of constants / wildcard (with optional guards) is an if/elif chain on `==` / `is`
+            chain = s._match_as_if(st)
+            if chain is not None:
+                return s.stmt(chain, leaf)
+        if isinstance(st, ast.Pass):
+            return [leaf]
+        # a statement the evaluator does not model must not be skipped silently: the function is not analysable (INCONCLUSIVE)
+        raise TooManyPaths('unsupported statement %s at line %s' % (type(st).__name__, getattr(st, 'lineno', '?')))
+
+    def _match_as_if(s, st):
+        def test_of(pat):
+            if isinstance(pat, ast.MatchValue):
+                return ast.Compare(left=st.subject, ops=[ast.Eq()], comparators=[pat.value])
+            if isinstance(pat, ast.MatchSingleton):
+                return ast.Compare(left=st.subject, ops=[ast.Is()], comparators=[ast.Constant(value=pat.value)])
+            if isinstance(pat, ast.MatchOr):
+                parts = [test_of(p_) for p_ in pat.patterns]
+                if any(x is None for x in parts):
+                    return None
+                return ast.BoolOp(op=ast.Or(), values=parts)
+            if isinstance(pat, ast.MatchAs) and pat.pattern is None and pat.name is None:
+                return ast.Constant(value=True)
+            if isinstance(pat, ast.MatchClass) and not pat.patterns and not pat.kwd_patterns:
+                return ast.Call(func=ast.Name(id='isinstance', ctx=ast.Load()), args=[st.subject, pat.cls], keywords=[])     # case int():
+            return None
+        orelse = []
+        for case in reversed(st.cases):
+            t = test_of(case.pattern)
+            if t is None:
+                return None
+            if case.guard is not None:
+                t = ast.BoolOp(op=ast.And(), values=[t, case.guard])
+            node = ast.If(test=t, body=case.body, orelse=orelse)
+            ast.copy_location(node, case.pattern)
+            ast.fix_missing_locations(node)
+            orelse = [node]
+        return orelse[0] if orelse else None
 
     def _assigned_names(s, stmts):
         out = set()
@@ -1015,7 +1209,34 @@ class Sym:
                     out.add(n.func.value.id)
         return out
 
+    def _fusable(s, st, leaf):
+        """statements equivalent to `for T in helper_generator(...): BODY` written as one loop, or None (sa/fuse.py)"""
+        it = st.iter
+        if not s.inline_unknown or s._inline_depth >= 3 or not isinstance(it, ast.Call):
+            return None
+        from .fuse import fuse, is_generator
+        f = it.func
+        m = s.model
+        if isinstance(f, ast.Attribute) and isinstance(f.value, ast.Name) and f.value.id == 'self' and leaf.env.get('self', ('self',)) == ('self',):
+            dm, dc = getattr(s, '_dyn', (s._mod, s._cls))
+            r = m.find_method(dm, dc, f.attr) if dc is not None else None
+            if r and r[0] == s._mod and is_generator(r[2]) and not m.is_property(r[2]):
+                return fuse(st, r[2], it, True)
+        elif isinstance(f, ast.Name) and f.id not in leaf.env:
+            g = m.resolve_global(s._mod, f.id)
+            lk = m.lookup(g)
+            if lk and lk[0] == 'func' and g[1] == s._mod and is_generator(lk[1]):
+                return fuse(st, lk[1], it, False)
+        return None
+
     def for_loop(s, st, leaf):
+        fused = s._fusable(st, leaf)
+        if fused is not None:
+            s._inline_depth += 1
+            try:
+                return s.block(fused, [leaf])
+            finally:
+                s._inline_depth -= 1
         s.note_calls(st.iter, leaf)
         it = s.T(st.iter, leaf)
         if it[0] == 'g':
@@ -1023,6 +1244,15 @@ class Sym:
             lk = s.model.lookup(it)
             if lk and lk[0] == 'const' and isinstance(lk[1], (ast.Tuple, ast.List)) and not s.model.reassigned(it[1], it[2]):
                 it = s.term(lk[1], {}, it[1], None)
+        if it[0] == 'call' and it[1][0] == 'attr' and it[1][2] in ('items', 'keys', 'values') and not it[2] and not it[3]:
+            # iteration over the items / keys / values of a literal dictionary (also a module-level table, bound once): like the literal
+            dt = it[1][1]
+            if dt[0] == 'g':
+                lk = s.model.lookup(dt)
+                if lk and lk[0] == 'const' and isinstance(lk[1], ast.Dict) and not s.model.reassigned(dt[1], dt[2]) and all(k_ is not None for k_ in lk[1].keys):
+                    dt = s.term(lk[1], {}, dt[1], None)
+            if dt[0] == 'dict':
+                it = ('tuple', tuple({'items': ('tuple', (kk, vv)), 'keys': kk, 'values': vv}[it[1][2]] for kk, vv in dt[1]))
         if it[0] in ('tuple', 'list') and len(it[1]) <= 8 and not st.orelse:
             cur = [leaf]
             for el in it[1]:
@@ -1116,8 +1346,10 @@ class Sym:
             l = leaf.clone()
             # the handler runs after a prefix of the body: variables assigned in the body are unknown,
             # effects of the body may or may not have happened
-            for nm in s._assigned_names(st.body):
-                l.env[nm] = ('maybe', nm)
+            single = len(st.body) == 1 and isinstance(st.body[0], (ast.Assign, ast.AugAssign, ast.AnnAssign, ast.Expr, ast.Return))
+            if not single:          # (an exception inside a single simple statement leaves its target unassigned: the state is the one before)
+                for nm in s._assigned_names(st.body):
+                    l.env[nm] = ('maybe', nm)
             et = s.T(h.type, l) if h.type is not None else ('b', 'BaseException')
             l.conds.append((('exc', et), True, h))
             l.effects.append(('except', et, None, h, len(l.conds)))
@@ -1150,6 +1382,49 @@ def _has_effect_call(*exprs):
                     continue
                 return True
     return False
+
+
+def _percent_to_format(t):
+    """('template in {}-style', number of fields) for a %-style template made of literal text and %d %i %s %r %f directives with
+    optional zero-padded width / precision; None when it uses anything else"""
+    import re as _re
+    out = []
+    n = 0
+    i = 0
+    while i < len(t):
+        c = t[i]
+        if c == '%':
+            m = _re.match(r'%(0?\d*)(?:\.(\d+))?([disrf%])', t[i:])
+            if not m:
+                return None
+            w, prec, k = m.group(1), m.group(2), m.group(3)
+            if k == '%':
+                if w or prec:
+                    return None
+                out.append('%')
+            else:
+                n += 1
+                if k in 'di':
+                    out.append('{:%sd}' % w if w else '{:d}')
+                elif k == 'f':
+                    out.append('{:%s%sf}' % (w, '.' + prec if prec is not None else '.6'))
+                elif k == 's':
+                    if w or prec:
+                        return None
+                    out.append('{}')
+                else:
+                    if w or prec:
+                        return None
+                    out.append('{!r}')
+            i += len(m.group(0))
+        else:
+            out.append('{{' if c == '{' else '}}' if c == '}' else c)
+            i += 1
+    return ''.join(out), n
+
+
+def _literal_table(v):
+    return isinstance(v, (ast.Tuple, ast.List)) and bool(v.elts) and all(isinstance(x, (ast.Constant, ast.Tuple, ast.List, ast.Load, ast.UnaryOp, ast.USub)) for x in ast.walk(v))
 
 
 def _norm_cmp(ct, truth):
